@@ -626,7 +626,7 @@ class Differential:
     re-creates the system under test), so episodes are independent and can be shrunk
     on their own."""
 
-    def __init__(self, ctx, binary, test="TestVerifDriver", env=None, timeout=600, project=None):
+    def __init__(self, ctx, binary, test="TestVerifDriver", env=None, timeout=600, project=None, confirm=0):
         self.ctx = ctx
         self.binary = binary
         self.test = test
@@ -636,6 +636,10 @@ class Differential:
         # project: implementation output line -> the canonical part the model predicts (the rest
         # of the line is detail for the property oracle: timings, generated values, full headers)
         self.project = project or (lambda l: l)
+        # confirm: for episodes measured in wall-clock time (real sockets, real timeouts) an oracle failure is
+        # reported only if the same episode fails again in one of `confirm` re-runs: a defect in the code shows
+        # every time, a machine too loaded to keep the episode's timing does not
+        self.confirm = confirm
 
     def run_both(self, episodes, want_model=True, timeout=None):
         self.n += 1
@@ -716,6 +720,16 @@ class Differential:
             d = first_diff([self.project(x) for x in oi], om)
             if not ofail and d is None:
                 continue
+            if ofail and d is None and self.confirm:
+                again = 0
+                for _ in range(self.confirm):
+                    rcc, _, oic, _ = self.run_both([ep], want_model=False, timeout=min(self.timeout, 300))
+                    if rcc != 0 or len(oic) != len(op_lines(ep)) or split_known(ctx, oracle(ep, oic)):
+                        again += 1
+                        break
+                if again == 0:
+                    ctx.notes.append("%s: an oracle failure did not reproduce in %d re-runs of the same episode (wall-clock timing under load): %s" % (label, self.confirm, str(ofail[0])[:160]))
+                    continue
             if reported >= 3:
                 reported += 1
                 continue
